@@ -202,6 +202,16 @@ class Report:
         for v in self.violations[:10]:
             print("VIOLATION property=%s replay=%s" % (self.prop, v["path"]))
             print("  facts: " + json.dumps(v["facts"], default=str)[:600])
+        groups = {}
+        for v in self.violations:
+            k = json.dumps({a: b for a, b in v["facts"].items() if a not in ("step", "detail", "msg", "excmsg", "proc", "fault_ops", "out")},
+                           sort_keys=True, default=str)
+            groups[k] = groups.get(k, 0) + 1
+        if len(self.violations) > 10:
+            print("  (%d violations in %d groups; first 10 listed above)" % (len(self.violations), len(groups)))
+            for k, n_ in sorted(groups.items(), key=lambda kv: -kv[1])[:15]:
+                print("  group x%d: %s" % (n_, k[:400]))
+        self.cov["violation_groups"] = [{"n": n_, "facts": json.loads(k)} for k, n_ in sorted(groups.items(), key=lambda kv: -kv[1])[:40]]
         self.cov["known_findings_hit"] = {k: h["n"] for k, h in self.known_hit.items()}
         if not self.cov["samples"]:
             self.cov["samples"] = ["(no sample recorded)"]
